@@ -212,7 +212,7 @@ class Gen:
                 labels[fn.qual] = "must"
         kinds = ["func", "func", "func", "method", "method", "classmethod", "staticmethod", "property", "wrapped", "recursive",
                  "closure", "nested_method", "nested_static", "override", "inherited", "genfunc", "genfunc", "genmethod", "coro", "coro",
-                 "cyclic", "mutret", "selfrec"]
+                 "cyclic", "mutret", "selfrec", "mutpass"]
         if self.opts.get("no_coro"):
             kinds = [k for k in kinds if k != "coro"]
         plan = [rng.choice(kinds) for _ in range(nfuncs)]
@@ -222,7 +222,7 @@ class Gen:
             idx += 1
             callees = [f for f in self.fns if f.kind != "init"]
             simple = rng.random() < 0.3
-            if kind in ("cyclic", "mutret", "selfrec"):
+            if kind in ("cyclic", "mutret", "selfrec", "mutpass"):
                 name = f"f{idx}"
                 sig = Sig(rng, simple=True)
                 sig.normal, sig.ndefault = 1, 0
@@ -234,6 +234,25 @@ class Gen:
                                         + (["    _sink(n0)", "    _sink(_l)", "    _sink(n0)"] if rng.random() < 0.5 else []) + ["    return _l"])
                     # _sink is an ordinary module function: the calls around the one whose argument cannot be typed must be logged
                     labels["_sink"] = "must"
+                elif kind == "mutpass":
+                    # the caller widens a container it received, in place, and hands the very same object on to another function:
+                    # the callee's argument type is the type of the container as it is when the callee starts
+                    fn = Fn(idx, kind, "plain", name, name, "must", sig, access=name)
+                    recv = f"{name}_recv"
+                    v0, v1 = self.value(), self.value()
+                    how = rng.choice(["list", "dict", "set", "nested"])
+                    if how == "list":
+                        body, start = [f"    n0.append({v1})"], f"[{v0}]"
+                    elif how == "dict":
+                        body, start = [f"    n0[2] = {v1}"], f"{{1: {v0}}}"
+                    elif how == "set":
+                        body, start = [f"    n0.add({v1})"], f"{{{v0}}}"
+                    else:
+                        body, start = [f"    n0[0].append({v1})"], f"[[{v0}]]"
+                    module_funcs.append([f"def {recv}(c0):", "    return len(c0)"])
+                    module_funcs.append([f"def {name}(n0):"] + body + [f"    return {recv}(n0)"])
+                    labels[recv] = "must"
+                    fn.call_expr = (lambda g, r, name=name, start=start: f"{name}({start})")
                 elif kind == "mutret":
                     # the returned object is one of the arguments, changed in place during the call
                     fn = Fn(idx, kind, "plain", name, name, "must", sig, access=name)
